@@ -111,6 +111,15 @@ def run(ctx):
                 elif isinstance(src, ast.Subscript):
                     o.violated(sf, r, f"only `{txt(src)}` of the drawn list is patched and returned")
                     ok = True
+        # EVERY exit hands back a patched list: a shortcut that returns draws (or copies of a key) directly skips the repair
+        for r in rets:
+            if "handshaking_lemma" in txt(r.value):
+                continue
+            if isinstance(r.value, (ast.List, ast.Tuple)) and not r.value.elts:
+                continue        # an empty sample needs no repair
+            if ok:
+                o.violated(sf, r, f"`return {txt(r.value)[:50]}` leaves sample_jds_from_jdd without the handshake patch: on that path the column sums need not be "
+                                  "divisible by the motif sizes", shape_free=True)
         if not ok:
             if rets and not any("handshaking_lemma" in txt(r.value) for r in rets):
                 o.violated(sf, rets[0], "the sample is returned without the handshake patch: column sums need not be divisible by the motif sizes")
